@@ -19,14 +19,20 @@ func runC06(r *engine.Run) {
 	r.Rule("DOM-tombstone", "every Clone() of a cache entry's data that is handed out is reached only on paths where the same entry's deleted flag tested false (feasible-path enumeration with structural atom equality)")
 	r.Rule("DOM-ownfirst", "TransactionCache.Get and BlockCache.Get delegate to the next layer only on paths where their own map lookup missed; BlockCache.Get delegates with its previous-block hash")
 	r.Rule("DEP-walk", "in StateCache.Get every block hash used to look into the per-key map or the link map is the queried hash or the link stored for the previously used hash (no other source); a memoised entry is stored under the queried hash and is the entry found")
+	r.Rule("WHO-readonly", "the lookups of the transaction cache and of the block cache (and everything they reach in those types) never store into their own pending map: a pending map is a write set that Commit publishes, so a memoised read would be flushed as a write and overwrite another transaction's committed write")
+	r.Rule("ORDER-publish", "see C08: a block's ancestor link is published only after all of the block's keys are written (a lookup that runs during the commit must not walk past the half-written block)")
 	r.Rule("KEY-same", "Set/setValue/remove/commit store an entry under the key (and block hash) they were given; the tombstone arms store deleted=true")
 	r.NotDec = append(r.NotDec,
 		"answers after LRU eviction (capacity arithmetic)", "equality with the block-tree oracle for every history")
+	whoReadOnly(r, "WHO-readonly")
 	domNoMapSwap(r)
 	domTombstone(r)
 	domOwnFirst(r)
 	depWalk(r)
 	keySame(r)
+	if commit := r.Fn("ORDER-publish", pkgSC, "StateCache", "commit"); commit != nil {
+		orderPublish(r, commit)
+	}
 }
 
 // lruCallOnField matches c = (*lru.Cache).<method>(load of <recvType>.<field>, ...).
@@ -449,7 +455,8 @@ func keySame(r *engine.Run) {
 		})
 	}
 	// commitRound links blockHash -> prevHash
-	if f := r.Fn(rule, pkgSC, "StateCache", "commitRound"); f != nil {
+	if f, _ := r.P.Func(pkgSC, "StateCache", "commitRound"); f != nil && len(f.Blocks) > 0 {
+		r.Touch(f)
 		engine.Instrs(f, func(in ssa.Instruction) {
 			c, ok := in.(*ssa.Call)
 			if !ok || !lruCallOnField(c, "Add", "hashCache") {
@@ -530,4 +537,47 @@ func tombstoneStored(r *engine.Run, rule string, f *ssa.Function) {
 		r.Check(found && l == 0, rule, o.next(fn(f)+"|tombstone"), r.P.Pos(mu.Pos()),
 			"entry stored with deleted=true on every path", "a remove arm stores an entry whose deleted flag is not the constant true: the removed key stays visible")
 	})
+}
+
+// whoReadOnly: TransactionCache.Get / BlockCache.Get do not write their own
+// pending maps.
+func whoReadOnly(r *engine.Run, rule string) {
+	g := r.P.RepoCG()
+	for _, spec := range []struct{ recv string }{{"TransactionCache"}, {"BlockCache"}} {
+		f := r.Fn(rule, pkgSC, spec.recv, "Get")
+		if f == nil {
+			continue
+		}
+		bad := ""
+		pos := r.P.Pos(f.Pos())
+		n := 0
+		for fn2 := range g.Reach(f) {
+			if rn := recvNamed(engine.TopFunc(fn2)); rn != "TransactionCache" && rn != "BlockCache" {
+				continue
+			}
+			n++
+			engine.Instrs(fn2, func(in ssa.Instruction) {
+				var m ssa.Value
+				switch x := in.(type) {
+				case *ssa.MapUpdate:
+					m = x.Map
+				case *ssa.Call:
+					if b, ok := x.Call.Value.(*ssa.Builtin); ok && (b.Name() == "delete" || b.Name() == "clear") {
+						m = x.Call.Args[0]
+					}
+				case *ssa.Store:
+					if fld := engine.FieldOf(x.Addr); fld != nil && fld.Name() == "cache" {
+						bad, pos = "replaces its pending map", r.P.Pos(in.Pos())
+					}
+				}
+				if m != nil {
+					if fld := fieldLoadOf(m); fld != nil && fld.Name() == "cache" {
+						bad, pos = "stores into the pending map of "+recvNamed(engine.TopFunc(fn2))+" (in "+fn(fn2)+")", r.P.Pos(in.Pos())
+					}
+				}
+			})
+		}
+		r.Check(bad == "", rule, fn(f)+"|no write", pos, fmt.Sprintf("%d functions of the pending-cache types reachable, none writes a pending map", n),
+			"a lookup "+bad+": reads become part of the write set that Commit publishes, so a transaction that only read a key overwrites (or resurrects) what another transaction committed meanwhile")
+	}
 }
